@@ -43,27 +43,32 @@ def apply_step(sp, st):
 
 
 def impl_call(case):
-    sp = O.build_prim(case['prim'])
+    sp = O.eval_expr(case['prim'])
     outs = []
     for st in case['steps']:
         outs.append(guarded(lambda: apply_step(sp, st)))
     # oracle data: a fresh object with the final attribute values, and the rest-frame object
     final_z, final_t = case['final']
-    fresh_desc = dict(case['prim'])
-    fresh_desc['z'] = final_z
-    fresh_desc['ztype'] = final_t
-    rest_desc = {k: v for k, v in case['prim'].items() if k not in ('z', 'ztype')}
+    if 'prim' in case['prim']:
+        fresh_desc = dict(case['prim'])
+        fresh_desc['z'] = final_z
+        fresh_desc['ztype'] = final_t
+        rest_desc = {k: v for k, v in case['prim'].items() if k not in ('z', 'ztype')}
+    else:
+        # a composite has no constructor taking z: "fresh" is the rebuilt expression with the final values assigned once
+        fresh_desc = {'setz': {'z': final_z, 'ztype': final_t}, 'e': case['prim']}
+        rest_desc = case['prim']
     xs = np.array([O.fl(x) for x in case['probe']])
 
     def probe(obj):
         w = obj.waveset
         return {'vals': obj(xs).value, 'waveset': None if w is None else w.value,
                 'integral': None if w is None else obj.integrate(integration_type='trapezoid').value}
-    extra = {'live': guarded(lambda: probe(sp)), 'fresh': guarded(lambda: probe(O.build_prim(fresh_desc))),
+    extra = {'live': guarded(lambda: probe(sp)), 'fresh': guarded(lambda: probe(O.eval_expr(fresh_desc))),
              'z_attr': guarded(lambda: [float(sp.z), sp.z_type])}
 
     def rest_probe():
-        rest = O.build_prim(rest_desc)
+        rest = O.eval_expr(rest_desc)
         z = O.fl(final_z)
         w = rest.waveset
         return {'vals_at_rest': rest(xs / (1 + z)).value, 'waveset': None if w is None else w.value,
@@ -84,6 +89,8 @@ def compare(case, o, m):
         if st['do'] == 'waveset' and 'ok' in a and a['ok'] is not None and 'ok' in b and b['ok'] is not None:
             if len(a['ok']) != len(b['ok']):
                 return 'step %d: waveset lengths %d vs %d' % (i, len(a['ok']), len(b['ok']))
+        if b.get('err') == 'NaN' and 'op' in case['prim']:
+            continue        # a composite dividing by zero at a sampled wavelength: the model refuses, NumPy gives inf / nan / 0
         scale = 0.0
         if 'ok' in a and isinstance(a['ok'], list):
             scale = max([abs(x) for x in a['ok']] + [0.0])
@@ -161,6 +168,16 @@ def gen_case(rng, K, maxlen):
         prim['ztype'] = t0
     else:
         z0, t0 = F(0), 'wavelength_only'
+    if rng.random() < 0.25:
+        # a composite source (operands may carry their own redshift); no box / trapezoid leaves: their jumps would be
+        # sampled at rounding distance after two wavelength maps
+        from . import c02
+        for _ in range(50):
+            e = c02.gen_tree(rng, rng.randint(1, 2), 'source')
+            leaves = [p['leaf']['leaf'] for p in O.walk_prims(e)]
+            if 'op' in e and c02.static_kind(e) == 'source' and not set(leaves) & {'box', 'trapezoid'}:
+                prim, z0, t0, zs = e, F(0), 'wavelength_only', ZS
+                break
     O.fill_ss(prim)
     xs = qs(O.sample_grid(rng, 6, 300, 60000))
     steps = []
@@ -195,14 +212,14 @@ def run(rep):
         c['const'] = K
     cases += [gen_case(rng, K, 40 if thorough else 8) for _ in range(30000 if thorough else 1500)]
     rep.rule = ('random histories of z / z_type assignments (incl. non-real z and unknown z_type), samples, waveset and integrate '
-                'queries (<= 8 steps quick, <= 40 thorough) on SourceSpectrum objects of every leaf kind, constructed with or '
+                'queries (<= 8 steps quick, <= 40 thorough) on SourceSpectrum objects of every leaf kind and (25%) composite sources whose operands may already be redshifted, constructed with or '
                 'without redshift; z from {0, 1/8, 1/2, 1, 3, 7, 20, -1/4, -1/2, -7/8}. Non-trivial: at least one assignment step.')
 
     def nontrivial(c, o):
         return any(s['do'].startswith('set_') for s in c['steps'])
 
     def tags(c, o):
-        t = ['final_ztype:' + c['final'][1], 'len:%d' % min(len(c['steps']), 9), 'leaf:' + c['prim']['leaf']['leaf']]
+        t = ['final_ztype:' + c['final'][1], 'len:%d' % min(len(c['steps']), 9), 'leaf:' + (c['prim']['leaf']['leaf'] if 'leaf' in c['prim'] else 'composite')]
         return t
     core.run_cases(rep, cases, impl_call, model_case, oracle, tags_fn=tags, nontrivial_fn=nontrivial, compare_fn=compare)
     rep.samples = [s if not isinstance(s, dict) else {k: v for k, v in s.items() if k != 'const'} for s in rep.samples]
